@@ -64,6 +64,11 @@ func main() {
 		runChainWorker()
 		return
 	}
+	if name == "gen" {
+		// regenerate Lean from Go source (translator, gen.go); exits 2 on anything it does not understand
+		runGen(os.Args[2:])
+		return
+	}
 	if name == "facts" {
 		runFacts(os.Args[2:])
 		return
